@@ -18,6 +18,7 @@ any program-set input.  Otherwise two different draws may legitimately collapse 
 distinctness is not required.
 """
 import os
+import functools
 import numpy as np
 from hypothesis import strategies as st
 from vlib import gen_model, simcase, canon, c17_helpers as H
@@ -138,6 +139,16 @@ def static_cases(tier):
     out.append(mk({"kind": "spec", "spec": _hand(no_sigma)}, "none", 4, "serial-only", None, 12))
     out.append(mk({"kind": "lib", "name": "udt", "progs": True, "start_off": 1, "par": [[0, {"rel": 0.01}]], "prog": [], "covout": [[0, 0.01, 0.4]]}, "both", 6, "ensemble", None, 13))
     out.append(mk({"kind": "lib", "name": "udt", "progs": False, "start_off": 1, "par": [[1, {"rel": 0.01}]], "prog": [], "covout": []}, "par", 20, "ensemble", None, 15))
+    def edge_sigma(spec):
+        spec["data"]["q"]["k3"]["pb"] = {"a": 0.0, "s": 0.1}  # a rate assumed to be 0 +- 0.1 (constant, no year values)
+        spec["data"]["q"]["k2"]["pa"] = {"t": [2000.0], "v": [0.0], "s": 0.02}
+        spec["data"]["q"]["k0"]["pb"]["s"] = 0.02
+        spec["c17_edge"] = ["zero-const", "zero-year"]
+        for c in spec["progs"]["covouts"]:
+            c["sigma"] = None
+
+    out.append(mk({"kind": "spec", "spec": _hand(edge_sigma)}, "edge", 4, "project", 2, 20))
+
     def init_sigma(spec):
         spec["data"]["q"]["c1"]["pa"]["s"] = 50.0 / 0.5244  # 30% of the draws give a negative initial c1
         for c in spec["progs"]["covouts"]:
@@ -161,6 +172,13 @@ def static_cases(tier):
 def fingerprint(res):
     """result arrays (compartments, characteristics, parameters, links) + the program inputs the run kept (Model.progset is the sampled set)"""
     return canon.result_digest(res) + "/" + H.progset_inputs_digest(res.model.progset)
+
+
+def _map_wrapped(result, inner=None, **kwargs):
+    """a ready-made mapping function (CascadeEnsemble) wrapped so that the fingerprint of the Result travels with its output"""
+    pd = inner(result, **kwargs)
+    pd.c17_fingerprint = fingerprint(result[0] if isinstance(result, list) else result)
+    return pd
 
 
 def _map_plotdata(result, **kwargs):
@@ -270,10 +288,16 @@ def check(case):
     try:
         base = P.run_sim(ps, pg, ins)
         fp_base = fingerprint(base)
-        if ensemble:
-            _map_plotdata(base)
     except Exception as e:
         raise Discard("unsampled run raised %s at %s (decided by C18)" % (type(e).__name__, simcase.atomica_frame(e)))
+    plot_ok = cascade_ok = False
+    try:
+        _map_plotdata([base])
+        plot_ok = True
+        at.CascadeEnsemble(P.framework, 0).mapping_function([base])
+        cascade_ok = True
+    except Exception:
+        pass
 
     c_ps, c_pg = canon.canon(ps), canon.canon(pg)
 
@@ -286,9 +310,7 @@ def check(case):
             raise Violation(ID, "source-changed/progset/" + where, "program set differs after %s: %r (%s)" % (where, canon.diff(c_pg, b)[:4], what))
 
     # ---- 1. direct sampling ------------------------------------------------------------------------------------------------
-    probes = []
-    for s in case["probe_seeds"]:
-        np.random.seed(s)
+    def direct():
         try:
             sps = ps.sample()
         except Exception as e:
@@ -302,6 +324,35 @@ def check(case):
         if sps is ps or (pg is not None and spg is pg):
             raise Violation(ID, "sample-returns-source/" + ("parset" if sps is ps else "progset"), "sample() returned the source object itself (%s)" % what)
         sources_unchanged("sample()")
+        return sps, spg
+
+    # 1a. per quantity: the sampled VALUE of every input with sigma > 0 differs from the entered value and between samples (two
+    #     consecutive samples after one seeding + one sample after another seeding); inputs with sigma 0/None keep their value
+    src_q = H.quantity_values(ps, pg)
+    np.random.seed(case["probe_seeds"][0])
+    trio = [H.quantity_values(*direct()), H.quantity_values(*direct())]
+    np.random.seed(case["probe_seeds"][1])
+    trio.append(H.quantity_values(*direct()))
+    for key in sorted(src_q, key=repr):
+        kind, sigma, val, vclass = src_q[key]
+        got = [q[key][2] if key in q else "<missing>" for q in trio]
+        side = "progset" if key[0] in ("program", "outcome", "interaction-outcome") else "parset"
+        if sigma is not None and sigma > 0:
+            labels.append("uq:" + kind)
+            labels.append("uv:" + vclass)
+            if any(g == val for g in got):
+                raise Violation(ID, "quantity-not-perturbed/" + side, "%s %r (%s, entered value %r, sigma %r): sample %d has the entered value unchanged (%s)" % (kind, key, vclass, val, sigma, [g == val for g in got].index(True), what))
+            if len(set(got)) < len(got):
+                raise Violation(ID, "quantity-shared-draw/" + side, "%s %r (sigma %r): consecutive/independently seeded samples have the same sampled value %r (%s)" % (kind, key, sigma, got, what))
+        elif any(g != val for g in got):
+            raise Violation(ID, "zero-uncertainty-perturbs/quantity", "%s %r has sigma %r but its sampled value is %r, entered %r (%s)" % (kind, key, sigma, got, val, what))
+    labels[:] = sorted(set(labels), key=labels.index)
+
+    # 1b. runs on directly sampled sets
+    probes = []
+    for s in case["probe_seeds"]:
+        np.random.seed(s)
+        sps, spg = direct()
         try:
             probes.append(fingerprint(P.run_sim(sps, spg, ins)))
         except at.BadInitialization:
@@ -338,7 +389,7 @@ def check(case):
         labels.append("rejection-rate:" + ("0" if rej == 0 else "<20%" if rate < 0.2 else "20-60%" if rate <= 0.6 else ">60%"))
         what += " rejected %d of %d draws in a serial replay" % (rej, rej + acc)
 
-    # ---- 2. the calls ---------------------------------------------------------------------------------------------------------
+    # ---- 2. the entry points: every one is called twice in a row (second call not reseeded) -------------------------------------------
     def judge(fps, where, bucket_where, detail):
         if uncertain and sensitive:
             if len(set(fps)) < len(fps):
@@ -351,43 +402,72 @@ def check(case):
                 raise Violation(ID, "zero-uncertainty-differs/" + bucket_where, "%s: all sigmas are 0/None but samples %r differ from the unsampled run (%s)" % (detail, bad[:8], what))
         sources_unchanged(where)
 
+    def failed(err, bucket_where, call):
+        if "Failed simulation after" in err[2]:
+            raise Discard("sampling exhausted its attempts on bad initial conditions")
+        if m["edge"] and err[0] != "Timeout":
+            raise Discard("a run on edge-valued perturbed inputs raised %s (not a sampling matter)" % err[0])
+        raise Violation(ID, "call-raises/%s/%s" % (bucket_where, err[0]), "%s raised %s (%s)" % (call, err[1], what))
+
     def run_project(nn, seed, parallel, nw):
-        np.random.seed(seed)
+        if seed is not None:
+            np.random.seed(seed)
         out, err = _guarded(lambda: P.run_sampled_sims(ps, pg, ins, n_samples=nn, parallel=parallel, num_workers=nw))
         if err:
-            if "Failed simulation after" in err[2]:
-                raise Discard("sampling exhausted its attempts on bad initial conditions")
-            raise Violation(ID, "call-raises/%s/%s" % ("parallel" if parallel else "serial", err[0]), "run_sampled_sims(n_samples=%d, parallel=%s, num_workers=%s) raised %s (%s)" % (nn, parallel, nw, err[1], what))
+            failed(err, "parallel" if parallel else "serial", "run_sampled_sims(n_samples=%d, parallel=%s, num_workers=%s)" % (nn, parallel, nw))
         if not isinstance(out, list) or len(out) != nn or any((not isinstance(x, list)) or len(x) != 1 or not isinstance(x[0], at.Result) for x in out):
             raise Violation(ID, "wrong-shape/" + ("parallel" if parallel else "serial"), "expected a list of %d one-element lists of Result, got %r" % (nn, [type(x).__name__ for x in out][:5] if isinstance(out, list) else type(out)))
         return [fingerprint(x[0]) for x in out]
 
-    if not ensemble:
-        fps = run_project(n, case["seed"], False, None)
-        judge(fps, "run_sampled_sims(serial)", "serial", "serial call")
-        again = run_project(min(n, 3), case["seed"], False, None)
-        if again != fps[: len(again)]:
-            raise Violation(ID, "serial-not-reproducible", "two serial calls after np.random.seed(%d) gave different samples (%s)" % (case["seed"], what))
+    def run_ensemble(nn, seed, parallel, cascade=False):
+        if cascade:
+            ens = at.CascadeEnsemble(P.framework, 0)
+            ens.mapping_function = functools.partial(_map_wrapped, inner=ens.mapping_function)
+        else:
+            ens = at.Ensemble(mapping_function=_map_plotdata)
+        if seed is not None:
+            np.random.seed(seed)
+        name = ("Cascade" if cascade else "") + "Ensemble.run_sims(n_samples=%d, parallel=%s)" % (nn, parallel)
+        _, err = _guarded(lambda: ens.run_sims(P, ps, pg, ins, n_samples=nn, parallel=parallel))
+        if err:
+            failed(err, ("cascade-" if cascade else "") + "ensemble-" + ("parallel" if parallel else "serial"), name)
+        if len(ens.samples) != nn:
+            raise Violation(ID, "wrong-shape/ensemble-" + ("parallel" if parallel else "serial"), "%s: expected %d samples, got %d" % (name, nn, len(ens.samples)))
+        return [getattr(x, "c17_fingerprint", None) for x in ens.samples]
+
+    def twice(run, nn, seed, where, bucket_where, detail):
+        """call, judge, call again without reseeding, judge; the second call must not repeat draws of the first"""
+        first = run(nn, seed)
+        judge(first, where, bucket_where, detail)
+        second = run(min(nn, 3), None)
+        judge(second, where, bucket_where, detail + ", second call")
+        if uncertain and sensitive and set(first) & set(second):
+            raise Violation(ID, "repeated-draws/" + bucket_where, "%s: a second call without reseeding returned samples identical to samples of the first call: first-call indices %r (%s)" % (detail, [first.index(f) for f in second if f in first], what))
+        return first
+
     ncpu = os.cpu_count() or 1
+    # Project.run_sampled_sims, serial (+ reproducibility from the seed)
+    fps = twice(lambda nn, seed: run_project(nn, seed, False, None), n, case["seed"], "run_sampled_sims(serial)", "serial", "serial call")
+    again = run_project(min(n, 3), case["seed"], False, None)
+    if again != fps[: len(again)]:
+        raise Violation(ID, "serial-not-reproducible", "two serial calls after np.random.seed(%d) gave different samples (%s)" % (case["seed"], what))
+    # Ensemble.run_sims / CascadeEnsemble.run_sims, serial (needs a model that PlotData / the cascade can digest)
+    if plot_ok:
+        twice(lambda nn, seed: run_ensemble(nn, seed, False), min(n, 4), case["par_seed"], "Ensemble.run_sims(serial)", "ensemble-serial", "Ensemble.run_sims(parallel=False)")
+        labels.append("ensemble-serial")
+    if cascade_ok:
+        twice(lambda nn, seed: run_ensemble(nn, seed, False, True), min(n, 3), case["seed"], "CascadeEnsemble.run_sims(serial)", "cascade-ensemble-serial", "CascadeEnsemble.run_sims(parallel=False)")
+        labels.append("cascade-ensemble-serial")
     nontrivial = False
     if par == "project":
-        fps = run_project(n, case["par_seed"], True, workers)
-        judge(fps, "run_sampled_sims(parallel)", "project-parallel", "parallel call with %d workers" % workers)
+        twice(lambda nn, seed: run_project(nn, seed, True, workers), n, case["par_seed"], "run_sampled_sims(parallel)", "project-parallel", "parallel call with %d workers" % workers)
         labels.append("workers:%d" % workers)
         labels.append("samples>workers" if n > workers else "samples<=workers")
         nontrivial = workers >= 2 and n > workers and sensitive
     elif ensemble:
-        ens = at.Ensemble(mapping_function=_map_plotdata)
-        np.random.seed(case["par_seed"])
-        _, err = _guarded(lambda: ens.run_sims(P, ps, pg, ins, n_samples=n, parallel=True))
-        if err:
-            if "Failed simulation after" in err[2]:
-                raise Discard("sampling exhausted its attempts on bad initial conditions")
-            raise Violation(ID, "call-raises/ensemble-parallel/%s" % err[0], "Ensemble.run_sims(n_samples=%d, parallel=True) raised %s (%s)" % (n, err[1], what))
-        if len(ens.samples) != n:
-            raise Violation(ID, "wrong-shape/ensemble-parallel", "expected %d samples, got %d" % (n, len(ens.samples)))
-        fps = [getattr(s, "c17_fingerprint", None) for s in ens.samples]
-        judge(fps, "Ensemble.run_sims(parallel)", "ensemble-parallel", "Ensemble.run_sims(parallel=True) on %d CPUs" % ncpu)
+        if not plot_ok:
+            raise Discard("PlotData cannot be made from the unsampled run (Ensemble not applicable)")
+        twice(lambda nn, seed: run_ensemble(nn, seed, True), n, case["par_seed"], "Ensemble.run_sims(parallel)", "ensemble-parallel", "Ensemble.run_sims(parallel=True) on %d CPUs" % ncpu)
         labels.append("api:ensemble")
         nontrivial = sensitive and ncpu >= 2 and n > ncpu
     else:
